@@ -206,6 +206,15 @@ func BuildMem(name string, data []byte, banned ...string) *Outcome {
 
 // spellRoot returns the root path of the project directory in one of several spellings that
 // all denote the same file.
+// workerDir: the directory the worker started in (not where an Env.Cwd may have moved it).
+func workerDir() string {
+	if cwdPrefix != "" {
+		return strings.TrimSuffix(cwdPrefix, "/")
+	}
+	wd, _ := os.Getwd()
+	return wd
+}
+
 func spellRoot(root string, as int) string {
 	p := projDir + "/" + root
 	switch as {
@@ -218,12 +227,12 @@ func spellRoot(root string, as int) string {
 	case 4:
 		return "a/q/../p/" + root
 	case 5:
-		if wd, err := os.Getwd(); err == nil {
+		if wd := workerDir(); wd != "" {
 			return wd + "/" + p
 		}
 	case 6:
 		// up and down again: ../<name of the working directory>/a/p/root.jst
-		if wd, err := os.Getwd(); err == nil {
+		if wd := workerDir(); wd != "" {
 			return "../" + wd[strings.LastIndexByte(wd, '/')+1:] + "/" + p
 		}
 	}
